@@ -32,11 +32,10 @@ func (fr *Frame) dryRecord(li *loopInfo, es *State) {
 	if es.gepoch != hdr.gepoch {
 		rc.dryAllGhost = true
 	}
-	for k, v := range es.heap {
-		if hv, ok := hdr.heap[k]; !ok || hv != v {
-			rc.dryMods[k] = true
-		}
+	for k := range es.dirty {
+		rc.dryMods[k] = true
 	}
+	_ = hdr
 }
 
 func (fr *Frame) loopName(li *loopInfo) string {
@@ -96,6 +95,7 @@ func (fr *Frame) cutLoop(li *loopInfo, st *State, preds []*ssa.BasicBlock, pstat
 			fr.vals[phi] = vc.freshValue(fr.vname(phi)+".dry", phi.Type(), nil)
 		}
 		hs := st.clone()
+		hs.dirty = nil // collect what the body assigns
 		li.hdrState = hs.clone()
 		rc := &runCtx{back: fr.back, in: map[*ssa.BasicBlock][]*State{}, edgeSt: map[[2]*ssa.BasicBlock]*State{},
 			region: li.blocks, dryHeader: b, dryMods: map[string]bool{}}
@@ -135,6 +135,7 @@ func (fr *Frame) cutLoop(li *loopInfo, st *State, preds []*ssa.BasicBlock, pstat
 					q := sym(fmt.Sprintf("al!q%d", vc.nfresh))
 					vc.emit("(assert (forall ((" + q + " Int)) (=> (select " + old + " " + q + ") (select " + neu + " " + q + "))))")
 					st.heap[k] = neu
+					st.markDirty(k)
 					continue
 				}
 				vc.havocFamRaw(st, k)
